@@ -34,7 +34,24 @@ THEOREMS = [
     "Ural.Props.C12.relru_fixed_caseinv",
     "Ural.Props.C12.accessors_roundtrip",
     "Ural.Props.C12.stems_wellformed_of_split",
+    "Ural.Props.C12.serialization_string_of_split",
+    "Ural.Props.C12.roundtrip_string_of_law",
+    "Ural.Props.C12.accessors_string_of_law",
+    # with suffix_trie.py inside (Props/C12Psl.lean, Props/C13Psl.lean): nothing assumed about split_suffix
+    "Ural.Props.C12.serialization_string_psl",
+    "Ural.Props.C12.stems_wellformed_psl",
+    "Ural.Props.C12.splitLaw_psl_class",
+    "Ural.Props.C12.roundtrip_string_psl",
+    "Ural.Props.C12.accessors_string_psl",
+    "Ural.Props.C12.fullRoundtripStringPsl_false",
+    "Ural.Props.C13.mem_pslSplit",
+    "Ural.Props.C13.split_nobar_psl",
+    "Ural.Props.C13.splitLaw_psl_plain",
+    "Ural.Props.C13.splitCaseInv_psl",
+    "Ural.Props.C13.pslSplit_spec",
+    "Ural.Props.C08.walk_eq_psl",
 ]
+EXTRA_IMPORTS = ["UralModel.Props.C12Psl"]
 TABLE_OBLIGATIONS = [
     "Ural.Props.C12.port_splitter_pattern",
     "Ural.Props.C12.serialized_lru_splitter_pattern",
@@ -42,6 +59,9 @@ TABLE_OBLIGATIONS = [
     "Ural.Props.C12.serialized_lru_splitter_probes",
     "Ural.Props.C12.protocol_re_pattern",
     "Ural.Props.C12.urllib_uses_netloc",
+    # the *_psl theorems have the C08 model of suffix_trie.py inside: its hand-written is_special_host is re-checked
+    # against the verdicts of the real SPECIAL_HOSTS_RE (regenerated) when Props/C12Psl is built
+    "Ural.Props.C08.special_hosts_probes",
 ]
 RULE = (
     "A case is a URL string with the suffix_aware modes to run it in (both, for the corpus and the grammar). The stream is: the regression corpus (IPv6 with port, "
@@ -156,8 +176,10 @@ CORPUS = [
     "http://A.CoM:80/", "http://me.github.io/p",
     # specials
     "localhost", "localhost:8080/a", "127.0.0.1:80", "http://1.2.3.4/", "http://LOCALHOST/",
-    # trailing dot (D35, outside the suffix-aware reading), empty labels
-    "http://a.com./", "http://a..com/", "http://.a.com/",
+    # KF-C12-2 (D35): suffix-aware stems lose a trailing root label / the lone leading dot in front of a public
+    # suffix (suffix_aware=False keeps them); other empty labels round-trip
+    "http://a.co.uk./", "http://a.com./", "http://.co.uk/", "http://A.Co.UK..:80/x//y?q#f", "http://u:p@.com/", "http://x.www.ck./",
+    "http://a..com/", "http://.a.com/", "http://..co.uk/", "http://a.b.notatld./", "http://localhost./", "http://[::1%a.co.uk.]/",
     # outside the grammar: several '@', several ':', stray brackets, empty host
     "http://a@b@c.com/", "http://a.com:80:90/", "http://a]:80/", "http:///path", "http:////x", "http://:80/",
     "http://u:p:q@a.com/", "http://a.com:x/", "http://a%41.com/",
@@ -354,6 +376,12 @@ def wf_host_sa(netloc):
         # a bracketed literal is never suffix-processed: nothing is demanded
         return True
     return "%" not in host
+
+
+def psl_host_ok(host):
+    """the exact host condition of the suffix-aware round trip (Lean: Lru.pslHostOK): a bracketed literal, or a host
+    that neither starts nor ends with a dot"""
+    return host.startswith("[") or not (host.startswith(".") or host.endswith("."))
 
 
 def ascii_lower(s):
@@ -592,6 +620,7 @@ def _impl_url(C, url, sa, A, split):
         h, p = spec_hostport(hostport_of(A[1]))
         out["spec_host"] = h
         out["spec_port"] = "absent" if p is None else {"some": p}
+        out["psl_host_ok"] = psl_host_ok(h)
         out["expected"] = expected_tuple(t, sa, split)
     return out
 
@@ -630,7 +659,7 @@ def canon(op, out):
     out = dict(out)
     if op["f"] == "lru" and not out.get("wf"):
         # the grammar host/port and the expected tuple are only defined inside the grammar
-        for k in ("spec_host", "spec_port", "expected", "wf_sa"):
+        for k in ("spec_host", "spec_port", "expected", "wf_sa", "psl_host_ok"):
             out.pop(k, None)
     if op["f"] == "lru_url" and op.get("skip_back"):
         # the round-trip result is outside the stated domain of the parser model
@@ -677,8 +706,6 @@ def in_reading(A, sa):
     if host == "" and (t[2] == "" or t[2].startswith("/")):
         # a URL without host is outside the grammar (and CPython's urlunsplit drops an empty
         # netloc in front of a path starting with '//')
-        return False
-    if sa and has_empty_label(host) and host != "":
         return False
     return True
 
@@ -736,9 +763,13 @@ def oracle_url(url, sa):
         return "serialize_lru(unserialize_lru(lru)) = %r, lru = %r" % (serialize_lru(unserialize_lru(lru)), lru)
     if not in_reading(A, sa):
         return None
-    # assumption on split_suffix (C08): re-joins to the lower-cased hostname — not for a bracketed literal, on which
-    # split_suffix is not consulted (nothing is assumed about its answer there)
-    if sa and split is not None and not spec_hostport(hostport_of(A[1]))[0].startswith("["):
+    # C08's clause (the two parts of split_suffix re-join to the lower-cased hostname) — a theorem for the model of
+    # suffix_trie.py on every host that is psl_host_ok (splitLaw_psl_class), and the hypothesis of the theorems with an
+    # abstract split_suffix: a real split_suffix that breaks it there is reported.  Not for a bracketed literal, on
+    # which split_suffix is not consulted.  Outside psl_host_ok (trailing dot, leading dot) the clause is false by
+    # construction of suffix_trie.py and NOT assumed: the round trip is demanded all the same and its loss is KF-C12-2.
+    host = spec_hostport(hostport_of(A[1]))[0]
+    if sa and split is not None and not host.startswith("[") and psl_host_ok(host):
         d, s = split
         rj = s if d == "" else d + "." + s
         if rj != (A.hostname or "").lower():
@@ -748,6 +779,8 @@ def oracle_url(url, sa):
     want = raw_components(A)
     if sa:
         want = want[:3] + (want[3].lower(),) + want[4:]
+    kf = None
+    lossy = kf_lossy_host(host, split) if sa else None
     for name, arg in (("url_to_lru", lru), ("lru_stems", list(stems))):
         try:
             back = lru_to_url(arg)
@@ -763,14 +796,48 @@ def oracle_url(url, sa):
         if got != want:
             names = ["scheme", "user", "password", "host", "port", "path", "query", "fragment"]
             diff = [n for n, a, b in zip(names, want, got) if a != b]
-            return "lru_to_url(%s(u)) = %r: components %s differ: %r vs %r" % (name, back, diff, want, got)
+            msg = "lru_to_url(%s(u)) = %r: components %s differ: %r vs %r" % (name, back, diff, want, got)
+            if diff == ["host"] and lossy is not None and got[3] == lossy:
+                # the class of KF-C12-2, and exactly its loss: remembered, the other clauses are still checked
+                kf = kf or (msg + " " + KF2_MARK)
+            else:
+                return msg
         try:
             again = url_to_lru(back, suffix_aware=sa)
         except Exception as e:  # noqa
             return "url_to_lru(%r) raised %s" % (back, type(e).__name__)
         if again != lru:
             return "url_to_lru(lru_to_url(%s(u))) = %r, expected %r (u -> %r)" % (name, again, lru, back)
-    return None
+    return kf
+
+
+KF2_MARK = "[suffix-aware: an empty host label is lost — trailing dot(s) / lone leading dot in front of the public suffix]"
+
+
+def kf_lossy_host(host, split):
+    """KF-C12-2, the exact class and the exact loss: a plain (not bracketed) host that ends with a dot, or that is a
+    dot followed by its public suffix, for which split_suffix answers (domain, suffix).  suffix_trie.py walks the
+    hostname without its trailing dots and returns an empty domain for `.suffix`, stems.py emits `h:suffix` and the
+    labels of a non-empty domain only: lru_to_url gives back the two parts re-joined.  Returns that host (lower-cased,
+    as the suffix-aware mode compares hosts) when it differs from the host of the URL, else None."""
+    if split is None or host.startswith("[") or host == "":
+        return None
+    d, s = split
+    if not (host.endswith(".") or (host.startswith(".") and d == "")):
+        return None
+    rj = s if d == "" else d + "." + s
+    return rj if rj != ascii_lower(host) else None
+
+
+def kf_suffix_aware_empty_label(case, failure):
+    """KF-C12-2: suffix_aware=True, the only component that differs is the host, the URL's host is in the class of
+    kf_lossy_host and what came back is exactly the two parts of split_suffix re-joined"""
+    if case.get("k") != "url" or not failure.startswith("suffix_aware=True:") or not failure.endswith(KF2_MARK):
+        return False
+    pr = cparse(case["url"])
+    if pr is None or not wf_netloc(pr[0][1]):
+        return False
+    return kf_lossy_host(spec_hostport(hostport_of(pr[0][1]))[0], pr[1]) is not None
 
 
 def nontrivial(case):
@@ -831,6 +898,10 @@ def classify(case):
         if h.startswith("[") and split is not None and True in case["sa"]:
             # the class the fix FX-C12-df640b6 is about: split_suffix finds a suffix in the literal's text
             labs.append("bracketed-literal-with-public-suffix-text")
+    if True in case["sa"] and sp and kf_lossy_host(sp[0], split) is not None and in_reading(A, True):
+        labs.append("kf-region(KF-C12-2:empty-host-label-lost)")
+    if True in case["sa"] and sp and not psl_host_ok(sp[0]):
+        labs.append("host-outside-pslHostOK")
     if True in case["sa"]:
         labs.append("split=" + ("none" if split is None else "suffix-only" if split[0] == "" else "%d-label-suffix" % (split[1].count(".") + 1)))
     if "//" in A[2] or A[2].endswith("/"):
